@@ -24,10 +24,14 @@ VendorOK(e) ==
   ELSE /\ e.out = "loaded" /\ e.same /\ e.orthonormal
        /\ (e.expect = "nofix" => e.warning = "none")
        /\ (e.expect = "fix" => e.warning \in {e.admissible[i] : i \in 1..Len(e.admissible)})
+\* a WFN / WFX file written by another program: the loaded orbitals are the functions of space its primitive expansion denotes
+\* (independent reader), one loaded orbital per orbital of the file, with the occupation and energy printed there
+ForeignLoadOK(e) == e.readable /\ e.count_same /\ e.orbitals_same /\ e.occs_same /\ e.energies_same
 Step ==
   /\ l <= Len(Traces[tid])
   /\ LET e == Traces[tid][l] IN
        (CASE e.op = "Dump" -> DumpOK(e)
+          [] e.op = "ForeignLoad" -> ForeignLoadOK(e)
           [] e.op = "Vendor" -> VendorOK(e)) = TRUE
   /\ l' = l + 1 /\ UNCHANGED tid
   /\ TLCSet(tid, IF TLCGet(tid) < l THEN l ELSE TLCGet(tid))
